@@ -413,6 +413,32 @@ func TestPropagateReaderAndCallbacks(t *testing.T) {
 	}
 }
 
+func TestPropagatePingAndInjectedUnit(t *testing.T) {
+	now := int64(1_000_000)
+	s, p := propServer(t, "7.2.0", &now, PropagationOptions{})
+	p.AppendPing() // before anything: no SELECT
+	s.DoS(1, "SET", "a", "1")
+	p.AppendPing()
+	p.AppendUnit(0, 77, [][][]byte{{[]byte("DEL"), []byte("m")}, {[]byte("SET"), []byte("m"), []byte("v")}}, true)
+	p.AppendUnit(0, 77, [][][]byte{{[]byte("SET"), []byte("z"), []byte("1")}}, false)
+	want := "PING | SELECT 1 | SET a 1 | PING | MULTI | SELECT 0 | DEL m | SET m v | EXEC | SET z 1"
+	if got := flat(parseStream(t, p.Bytes())); got != want {
+		t.Fatalf("stream:\n got %s\nwant %s", got, want)
+	}
+	pings, injected := 0, 0
+	for _, e := range p.Log() {
+		if e.Kind == PropPing && e.Conn == MasterConn {
+			pings++
+		}
+		if e.Conn == 77 && e.Kind == PropWrite {
+			injected++
+		}
+	}
+	if pings != 2 || injected != 3 {
+		t.Fatalf("pings %d injected %d", pings, injected)
+	}
+}
+
 // The stream can be served to PSYNC replicas through the source role.
 func TestPropagateIntoSourceRole(t *testing.T) {
 	now := int64(1_000_000)
